@@ -26,7 +26,7 @@ def meta(tier):
                 '{0,1,2^(w-1)-1,2^(w-1),2^w-1,2^w,-1,-2^(w-1),-2^(w-1)-1}; (ii) numeric_bytecode min/max grid x values min-1..max+1; '
                 '(iii) numeric enumerations: every key set within {0..4} x values -1..5; (iv) address operands / valid_address numerics '
                 'against zones on a grid (incl. redefined GLOBAL, named memory_zone) x values s-1,s,e,e+1; (v) sliced addresses: slice '
-                'width {4,8,12} x instruction address on both sides of a page boundary x targets in the same / neighbouring pages; '
+                'width {4,8,12} x instruction address on both sides of a page boundary x targets in the same / neighbouring pages; (v-b) slice_lsb without match_address_msb: targets inside / beyond the field width from instruction addresses in several pages; '
                 '(vi) relative addresses: (min,max) grid x offset_from_instruction_end x instruction size {2,3,4} x address x every '
                 'offset min-1..max+1; non-trivial = value on or adjacent to a boundary (all of them are); distinct by construction',
         'bounds': {'widths': WIDTHS, 'opcodes': OPCODES},
@@ -34,7 +34,7 @@ def meta(tier):
                         'relative-address targets are kept inside GLOBAL (the statement does not list a zone constraint for them)',
                         'reference encoding: mc/refenc.py'],
         'floors': {'evaluations': 1000, 'nontrivial': 1000, 'statuses': ['OK', 'REJECT'],
-                   'clauses': ['range', 'minmax', 'enumeration', 'zone', 'slice', 'relative', 'relative-in-macro']},
+                   'clauses': ['range', 'minmax', 'enumeration', 'zone', 'slice', 'slice-only', 'relative', 'relative-in-macro']},
         'nshards': 64, 'xcheck': 16,
     }
 
@@ -246,6 +246,27 @@ def shard(acc, tier, idx, n):
                             ordered, _, _ = ins.fields('big', ((str(target), None, (target & (page - 1), w)),), addr)
                             exp = refenc.encode(ordered)
                         one(acc, isa, f'tst {target}', exp, 'slice', addr=addr, why=f'{target:#x} not in the page of {addr:#x}')
+    # ---- (v-b) slice_lsb without match_address_msb: nothing vouches for the high bits, so the value has to fit the field ------------
+    for w in (4, 8, 12):
+        page = 1 << w
+        for align, e in ((w == 8, 'big'), (False, 'little')):
+            for opw in ((0xA, 4), (0xC3, 8)):
+                ctr += 1
+                if ctr % n != idx:
+                    continue
+                sh = dict(G.shape_address(w, align, e, sliced=True))
+                sh['cfg'] = (lambda de, w=w, align=align, e=e: {'type': 'address', 'argument': G._argcfg(w, align, e, {'slice_lsb': True})})
+                ins = G.InstrSpec('tst', opw, None, None, [sh])
+                isa = G.build_isa([ins], 'big')
+                for addr in (0, page - 2, 2 * page - 1, 3 * page):
+                    for target in sorted({0, 1, page - 1, page, page + 1, 2 * page - 1, 2 * page, 3 * page + 1, 0x1234, 0xFF00 | (page - 1), addr}):
+                        if target > 0xFFFF:
+                            continue
+                        exp = None
+                        if target < page:
+                            ordered, _, _ = ins.fields('big', ((str(target), None, (target, w)),), addr)
+                            exp = refenc.encode(ordered)
+                        one(acc, isa, f'tst {target}', exp, 'slice-only', addr=addr, why=f'{target:#x} does not fit {w} bits and no high-bit match is configured')
     # ---- (vi) relative addresses ------------------------------------------------------------------------------------
     for (lo, hi) in ((-128, 127), (-4, 3), (0, 7), (-8, -1), (-1, 1), (-100, 200)):
         for from_end in (False, True):
